@@ -99,6 +99,8 @@ def stepOp (d : DSt) (toks : List String) : DSt :=
     match n.toNat?, parseOpt ctx, parseCmp cmp, parseOpt since, now.toNat?, parseFrames fr with
     | some n, some ctx, some cmp, some since, some now, some fr =>
       let q := ({ ctx, cmp, since } : QSpec).toSpec
+      -- REMEMBER waits for in-flight flushes: when it answers, no flush window is open
+      let d := { d with st := { d.st with store := d.st.store.flushEnd } }
       match d.st.cat n with
       | some _ => emit { d with st := (remember d.st n q now []).1 } "rem:dup"
       | none =>
@@ -117,6 +119,7 @@ def stepOp (d : DSt) (toks : List String) : DSt :=
       match d.st.cat n with
       | none => emit d "show:unknown"
       | some e =>
+        let d := { d with st := { d.st with store := d.st.store.flushEnd } }
         let w0 := sinkMark e.frames
         -- what the model's own watermark filter keeps from the model's own delta query
         let want := (keptBatches w0 [deltaQuery d.st.store e]).flatten.map (·.key)
